@@ -136,12 +136,13 @@ static H3Error run_scen(const Scen *s, uint64_t *dig) {
             H3Index *out = calloc(sz, 8); ARM(); r = polygonToCells(&g_poly, fr, flags, out); DISARM(); h = fnv(h, out, sz * 8); free(out); break; }
         case 6: case 7: { /* polygonToCellsExperimental / maxPolygonToCellsSizeExperimental: c%3 holes, (c/3)%4 mode, variants */
             H3Index outer = (s->c / 12) % 2 ? cell_near_pentagon(s->a, s->c, (s->c / 24) % 3) : far_cell(s->a, s->c);
-            if (s->c >= 200) outer = extreme_cell(s->a, (s->c - 200) / 12);
+            if (s->c >= 200 && s->c < 1000) outer = extreme_cell(s->a, (s->c - 200) / 12);
             make_poly(outer, s->c % 3); uint32_t flags = (s->c / 3) % 4; int fr = s->a + s->b;
             if (s->c >= 96 && s->c < 104) flags = 4 + s->c % 4 * 16; if (s->c >= 104 && s->c < 108) fr = s->c % 2 ? 16 : -1;
             int64_t sz = 0; if (s->kind == 7) ARM(); H3Error rs = maxPolygonToCellsSizeExperimental(&g_poly, fr, flags, &sz); DISARM();
             if (s->kind == 7) { r = rs; h = fnv(h, &sz, rs ? 0 : sizeof sz); break; }
-            if (rs) sz = 16; if (s->c >= 108) sz = sz > 3 ? 3 : 0;                      /* capacity exceeded */
+            if (rs) sz = 16; if (s->c >= 108 && s->c < 200) sz = sz > 3 ? 3 : 0;        /* capacity exceeded */
+            if (s->c >= 1000 && sz > (s->c - 1000) / 12) sz = (s->c - 1000) / 12;       /* capacity sweep: every size below the need */
             H3Index *out = calloc(sz + 1, 8); ARM(); r = polygonToCellsExperimental(&g_poly, fr, flags, sz, out); DISARM(); h = fnv(h, out, sz * 8); free(out); break; }
         case 8: { /* cellsToLinkedMultiPolygon (retains memory on success) */
             H3Index o = s->c % 2 ? cell_near_pentagon(s->a, s->c, s->c % 3) : far_cell(s->a, s->c);
@@ -182,6 +183,10 @@ static void build_scenarios(int quick) {
         add("polygonToCellsExperimental", 6, a, 1, 200 + 12 * place + c); add("maxPolygonToCellsSizeExperimental", 7, a, 1, 200 + 12 * place + c);
         if (c % 3 == 0 || !quick) add("polygonToCells", 5, a, 1, 200 + 12 * place + c); }
     for (int c = 96; c < 112; c++) { add("polygonToCellsExperimental", 6, 3, 1, c); if (c < 108) add("maxPolygonToCellsSizeExperimental", 7, 3, 1, c); }
+    /* capacity sweep: a polygon filled 2 (3) levels below its own cell, so that the compact iterator holds cells coarser than the
+     * target, with every output capacity from 0 up to the need: the E_MEMORY_BOUNDS exit can be taken at every position */
+    for (int cap = 0; cap <= 80; cap++) for (int v = 0; v < 12; v += (quick ? 5 : 1)) add("polygonToCellsExperimental", 6, 2 + cap % 7, 2, 1000 + 12 * cap + v);
+    for (int cap = 0; cap <= 420; cap += (quick ? 7 : 1)) add("polygonToCellsExperimental", 6, 1 + cap % 9, 3, 1000 + 12 * cap + (cap * 5) % 12);
     /* linked multipolygon + destroy */
     for (int c = 0; c < (quick ? 8 : 30); c++) { add("cellsToLinkedMultiPolygon", 8, 2 + c % 10, 1 + c % 3, c); }
 }
